@@ -17,6 +17,7 @@ import (
 	"fmt"
 	"os"
 	"path/filepath"
+	"runtime/pprof"
 	"sync/atomic"
 	"testing"
 	"time"
@@ -47,8 +48,9 @@ func TestRepairLostWakeup(t *testing.T) {
 	for calls.Load() < 55000 {
 		time.Sleep(time.Second)
 		for w := range started {
-			if st := started[w].Load(); st != 0 && time.Since(time.Unix(0, st)) > 30*time.Second {
-				t.Fatalf("Repair has not returned for 30 s (after %d calls): lost wakeup in scanner.getUpTo", calls.Load())
+			if st := started[w].Load(); st != 0 && time.Since(time.Unix(0, st)) > 120*time.Second {
+				pprof.Lookup("goroutine").WriteTo(os.Stderr, 1)
+				t.Fatalf("Repair has not returned for 120 s (after %d calls): lost wakeup in scanner.getUpTo", calls.Load())
 			}
 		}
 	}
